@@ -248,7 +248,60 @@ def shared_cases(draw, ctx):
 
 
 @st.composite
+def extfree_cases(draw, ctx):
+    """descriptor traffic of external threads: two external threads free, at the same time,
+    ULTs (pool stacks and user stacks: only the descriptor goes back) and tasklets that
+    were created on execution streams; all of these frees go through the one descriptor
+    pool reserved for external threads.  Afterwards a second wave of units is created and
+    run: a descriptor handed out twice shows up as a duplicate handle or a crash."""
+    lines = [draw(sched_line(ctx, extra=" tick=1000"))]
+    lines.append("env ABT_MEM_MAX_NUM_DESCS=%d" % draw(st.sampled_from([1, 2, 2, 4, 8])))
+    if draw(st.booleans()):
+        lines.append("env ABT_MEM_MAX_NUM_STACKS=%d" % draw(st.sampled_from([1, 2, 4])))
+    nxs = draw(st.integers(1, 2))
+    lines += ["pool 0 kind=fifo access=mpmc", "xs 0 sched=default pools=0"]
+    if nxs == 2:
+        lines += ["pool 1 kind=fifo access=mpmc", "xs 1 sched=basic pools=1"]
+    units, main, e0, e1 = [], [], ["fwait 1"], ["fwait 1"]
+    n1 = draw(st.integers(2, 7))
+    n2 = draw(st.integers(2, 7))
+    for _ in range(n1):
+        u = len(units)
+        sk = draw(st.sampled_from([0, 2, 2]))
+        attrs = " stackkind=2 stack=%d stackoff=%d" % (8 * draw(st.integers(2048, 6000)),
+                                                        8 * draw(st.integers(0, 5))) if sk == 2 else ""
+        units.append("unit %d type=ult named=1 pool=%d%s : %s" %
+                     (u, draw(st.integers(0, nxs - 1)), attrs, draw(st.sampled_from(["nop", "yield", "work 1"]))))
+        main += ["create %d" % u]
+        e0.append("free %d" % u)
+    for _ in range(n2):
+        u = len(units)
+        units.append("unit %d type=task named=1 pool=%d : %s" %
+                     (u, draw(st.integers(0, nxs - 1)), draw(st.sampled_from(["nop", "work 1"]))))
+        main += ["create %d" % u]
+        e1.append("free %d" % u)
+    main = list(draw(st.permutations(main)))
+    # everything has terminated before the external threads start freeing
+    main += ["join %d" % u for u in range(len(units))] + ["fset 1", "fwait 2", "fwait 3"]
+    e0.append("fset 2")
+    e1.append("fset 3")
+    for _ in range(draw(st.integers(2, 8))):
+        u = len(units)
+        units.append("unit %d type=%s named=1 pool=%d : nop" %
+                     (u, draw(st.sampled_from(["ult", "task"])), draw(st.integers(0, nxs - 1))))
+        main += ["create %d" % u]
+    main += ["free %d" % u for u in range(n1 + n2, len(units))]
+    lines += ["ext 0 : " + "; ".join(e0), "ext 1 : " + "; ".join(e1)]
+    lines += units
+    lines.append("main : " + "; ".join(main))
+    lines.append("note api extfree")
+    return "\n".join(lines) + "\n"
+
+
+@st.composite
 def cases(draw, ctx):
+    if ctx.get("variant") == "extfree":
+        return draw(extfree_cases(ctx))
     if ctx.get("variant") == "shared":
         return draw(shared_cases(ctx))
     if ctx.get("variant") == "churn":
@@ -284,6 +337,8 @@ def nontrivial(text, res, ctx):
             stat(res, "mp_from_global") >= 1 and \
             (stat(res, "mp_cross_frees") >= 1 or ("style=churn" in text and stat(res, "mp_to_global") >= 2))
     import re
+    if "note api extfree" in text:
+        return True
     if "note api shared" in text:
         return stat(res, "join_before_end") >= 2
     odd = any(int(m) % 64 for m in re.findall(r"stackkind=1 stack=(\d+)", text))
@@ -295,10 +350,11 @@ PLAN = {
     "quick": [("coarse", 6, 200, "api"), ("san", 4, 100, "api"), ("native", 2, 150, "api"),
               ("coarse", 3, 300, "pool"), ("fine", 3, 200, "pool"), ("nativesan", 2, 400, "pool"),
               ("fine", 4, 150, "shared"), ("native", 2, 150, "shared"),
+              ("fine", 3, 200, "extfree"), ("native", 1, 200, "extfree"),
               ("coarse", 4, 1200, "churn"), ("fine", 2, 500, "churn"), ("native", 2, 600, "churn")],
     "thorough": [("coarse", 4, 3000, "api"), ("fine", 4, 1500, "api"), ("san", 3, 1500, "api"),
                  ("native", 1, 2000, "api"), ("coarse", 4, 6000, "pool"), ("fine", 6, 4000, "pool"), ("san", 2, 2000, "pool"),
                  ("nativesan", 4, 20000, "pool"),
-                 ("fine", 6, 3000, "shared"), ("coarse", 2, 2000, "shared"), ("native", 3, 3000, "shared"),
+                 ("fine", 4, 3000, "extfree"), ("native", 2, 3000, "extfree"), ("fine", 6, 3000, "shared"), ("coarse", 2, 2000, "shared"), ("native", 3, 3000, "shared"),
                  ("coarse", 8, 20000, "churn"), ("fine", 4, 8000, "churn"), ("native", 3, 20000, "churn")],
 }
